@@ -1387,14 +1387,15 @@ impl Exec {
         if base == "with_capacity" && ok {
             if let (Some(a), Some(n)) = (&a_t, t.get(2).and_then(|x| x.parse::<usize>().ok())) {
                 if a.cap < n {
-                    self.fail(&["C11"], format!("`{opline}`: capacity {} < {n}", a.cap));
+                    self.fail(&["C11", "C06"], format!("`{opline}`: capacity {} < {n}", a.cap));
                 }
             }
         }
         if base == "reserve" && ok {
             if let (Some(b), Some(a), Some(n)) = (&b_t, &a_t, t.get(2).and_then(|x| x.parse::<usize>().ok())) {
                 if (a.cap as u128) < a.len as u128 + n as u128 {
-                    self.fail(&["C11"], format!("`{opline}`: capacity {} < len {} + {n}", a.cap, a.len));
+                    // the documented postcondition of a successful reserve (C06: "succeed with their documented postcondition")
+                    self.fail(&["C11", "C06"], format!("`{opline}`: capacity {} < len {} + {n}", a.cap, a.len));
                 }
                 if a.kind == 'S' || (a.kind == 'H' && a.rc != Some(1)) {
                     self.fail(&["C11"], format!("`{opline}`: storage not exclusively owned afterwards: {}", a.fmt(0)));
